@@ -303,5 +303,6 @@ MUTANTS = [
       "        if method is not None and method.lower() not in type(self)._render_methods:", "        if method is not None and method not in type(self)._render_methods:", {"R6"}),
     M("store-before-validate", IT, "ITerm2ImageMeta.jpeg_quality",
       "        if not isinstance(quality, int):", "        self._jpeg_quality = quality\n        if not isinstance(quality, int):", {"R2"}),
+    M("image-truth-value", CM, "BaseImage.__del__", "    def __del__(self) -> None:\n", "    def __bool__(self) -> bool:\n        return not getattr(self, \"_closed\", True)\n\n    def __del__(self) -> None:\n", {"R6"}),
     M("twin-dict-guard", CM, "BaseImage.set_render_method", "in vars(cls):", "in cls.__dict__:", twin=True),
 ]
